@@ -17,6 +17,8 @@
 -/
 import PM.TypePlan
 import PM.Fitter
+import PM.KeptChildren
+import PM.Monitor
 namespace PM
 
 /-- outcomes other than success: an error of the planner itself (argument checks, a step that does
@@ -140,5 +142,35 @@ def PSt.setBlockTypeF (S : Schema) (st : PSt) (f t : Nat) (ty : TypeId) (attrs :
     match (S.docVisits st.tr.doc f t).foldl (setBlockTypeVisitF S ty attrs st.tr.steps.length) (.ok (st, 0)) with
     | .error e => .error e
     | .ok (st', _) => if fsize st.tr.doc.kids < t then .error (.plan .internal) else .ok st'
+
+/-! ### executable forms of two statements about `clear_incompatible` (evaluated by the tie on real runs) -/
+
+/-- the filler request of `clear_incompatible(pos, pty)` on a node value, as the analysis of
+    Props/C13.lean predicts it: `(the walk ends at a valid end, size of the fillers,
+    node.can_replace(child_count, child_count, fill))` — the Fitter is consulted iff the first is
+    false, the second positive and the third `some false` -/
+def fillRequestOf (S : Schema) (node : Node) (pty : TypeId) : Bool × Nat × Option Bool :=
+  let q := keptState S pty node.kids 0
+  let F := retypeFill S pty q
+  ((S.dfa pty).validEnd q, fsize F, S.nodeCanReplace node node.kids.length node.kids.length F)
+
+/-- the conclusion of `clearIncompatibleF_keeps` as a check on the documents before and after a
+    `clear_incompatible(pos, pty)`: (the result begins with everything before the node, its open
+    token and exactly `keptChildren`; its text is the text before the node, the kept text and the
+    text behind the node; the leaf and text tokens behind the node survive as a suffix).
+    `none`: no node with content at `pos`. -/
+def clearKeepsCheck (S : Schema) (doc : Node) (pos : Nat) (pty : TypeId) (doc' : Node) : Option (Bool × Bool × Bool) :=
+  match doc.nodeAt pos with
+  | .ok (some node) =>
+    if node.isLeaf then none
+    else
+      let L := ftoks doc.kids
+      let K := keptChildren S pty node.kids 0
+      let L' := ftoks doc'.kids
+      let n0 := pos + 1 + fsize K
+      some (L'.take n0 == L.take pos ++ (node.toks.take 1 ++ ftoks K),
+        textUnits L' == textUnits (L.take pos) ++ textUnits (ftoks K) ++ textUnits (L.drop (pos + node.size)),
+        ((L.drop (pos + node.size)).filter Tok.isContent).isSuffixOf ((L'.drop n0).filter Tok.isContent))
+  | _ => none
 
 end PM
